@@ -5,6 +5,7 @@ From Coq Require Import ZArith List Bool Reals Lia Lra.
 From FT.lib Require Import Num Arr ArrLemmas Lower NumArr.
 From FT.gen Require Import Common Interp2d Interp3d Vinterp2d Vinterp3d FteikCommon Fteik2d Fteik3d Ray2d Ray3d.
 From FT.proofs Require Import Sweep2dProofs Sweep3dProofs GradR Solve2dProofs Solve3dProofs.
+From FT.proofs Require GradUnit.
 Import ListNotations.
 Open Scope R_scope.
 
@@ -81,6 +82,46 @@ Theorem C11_norm_zero_only_for_zero_vector :
   forall a b : R, norm2d a b = 0 <-> a = 0 /\ b = 0.
 Proof. exact @GradR.norm2d_zero_iff. Qed.
 
+(* solver level, exact arithmetic, no hypothesis on model, spacings, source or nsweep: every gradient vector returned by the 2D solver with the flag is the zero vector or has Euclidean norm 1 (each node is normalised exactly once, in its own iteration of the assembly) *)
+Theorem C11_solve2d_gradient_unit_or_zero :
+  forall (slow : arr R) (dz dx zsrc xsrc : R) (nsweep : Z) (tt ttgrad : arr R) (vzero : R),
+       fteik2d slow dz dx zsrc xsrc nsweep true = Ok (tt, ttgrad, vzero) ->
+       forall i j : Z,
+       (0 <= i < dim slow 0 + 1)%Z ->
+       (0 <= j < dim slow 1 + 1)%Z ->
+       let gz := get 0 ttgrad [i; j; 0%Z] in
+       let gx := get 0 ttgrad [i; j; 1%Z] in gz = 0 /\ gx = 0 \/ sqrt (gz * gz + gx * gx) = 1.
+Proof. exact @GradUnit.fteik2d_gradient_unit_or_zero. Qed.
+
+(* 3D *)
+Theorem C11_solve3d_gradient_unit_or_zero :
+  forall (slow : arr R) (dz dx dy zsrc xsrc ysrc : R) (nsweep : Z) (tt ttgrad : arr R) (vzero : R),
+       fteik3d slow dz dx dy zsrc xsrc ysrc nsweep true = Ok (tt, ttgrad, vzero) ->
+       forall i j k : Z,
+       (0 <= i < dim slow 0 + 1)%Z ->
+       (0 <= j < dim slow 1 + 1)%Z ->
+       (0 <= k < dim slow 2 + 1)%Z ->
+       let gz := get 0 ttgrad [i; j; k; 0%Z] in
+       let gx := get 0 ttgrad [i; j; k; 1%Z] in
+       let gy := get 0 ttgrad [i; j; k; 2%Z] in gz = 0 /\ gx = 0 /\ gy = 0 \/ sqrt (gz * gz + gx * gx + gy * gy) = 1.
+Proof. exact @GradUnit.fteik3d_gradient_unit_or_zero. Qed.
+
+(* the entries read above are slots of the returned array: shape [nz+1; nx+1; 2] *)
+Theorem C11_solve2d_gradient_shape :
+  forall (slow : arr R) (dz dx zsrc xsrc : R) (nsweep : Z) (tt ttgrad : arr R) (vzero : R),
+       (0 <= dim slow 0 + 1)%Z ->
+       (0 <= dim slow 1 + 1)%Z ->
+       fteik2d slow dz dx zsrc xsrc nsweep true = Ok (tt, ttgrad, vzero) ->
+       wf ttgrad /\ shape ttgrad = [(dim slow 0 + 1)%Z; (dim slow 1 + 1)%Z; 2%Z].
+Proof. exact @GradUnit.fteik2d_gradient_shape. Qed.
+
+(* without the flag the gradient output is the empty [0;0;0] array (every numeric instance) *)
+Theorem C11_solve2d_gradient_empty_without_flag :
+  forall (T : Type) (H : Num T) (slow : arr T) (dz dx zsrc xsrc : T) (nsweep : Z) (tt ttgrad : arr T) (vzero : T),
+       fteik2d slow dz dx zsrc xsrc nsweep false = Ok (tt, ttgrad, vzero) ->
+       shape ttgrad = [0%Z; 0%Z; 0%Z] /\ dat ttgrad = [].
+Proof. exact @GradUnit.fteik2d_gradient_empty_without_flag. Qed.
+
 Print Assumptions C11_sweep_tt_independent_of_grad.
 Print Assumptions C11_sweep2d_tt_independent_of_grad.
 Print Assumptions C11_sweep3d_tt_independent_of_grad.
@@ -89,3 +130,7 @@ Print Assumptions C11_solve3d_tt_independent_of_grad.
 Print Assumptions C11_normalised_has_unit_norm_2d.
 Print Assumptions C11_normalised_has_unit_norm_3d.
 Print Assumptions C11_norm_zero_only_for_zero_vector.
+Print Assumptions C11_solve2d_gradient_unit_or_zero.
+Print Assumptions C11_solve3d_gradient_unit_or_zero.
+Print Assumptions C11_solve2d_gradient_shape.
+Print Assumptions C11_solve2d_gradient_empty_without_flag.
